@@ -59,7 +59,7 @@ func vhCrashRecover(orc int, fam int, mode int, second bool) {
 		vhRetries = api.Choose("retries", 2)
 	}
 	w1 := vhNewWorld(vhCfg(fam), mode, 0)
-	if fam == famSeqSmall && !second && vhRetries == 0 {
+	if fam == famSeqSmall && !second && vhRetries == 0 && orc&oC09 != 0 {
 		// the durable image as a clock too coarse to separate any two instants of the run would leave it: every
 		// stored start and end is the same instant (a successful attempt then has End == Start, not End > Start)
 		w1.vault.Coarse = api.Choose("coarse_clock", 2) == 1
